@@ -133,7 +133,7 @@ _STR = z3.StringSort()
 
 def _char_class(chars):
     """Union of ranges covering exactly `chars`."""
-    key = ('cls', ''.join(sorted(chars)))
+    key = ('cls', ''.join(sorted(set(chars))))
     if key not in _RE:
         cps = sorted(ord(c) for c in set(chars))
         runs, start, prev = [], None, None
@@ -160,7 +160,7 @@ def _re_hexpair():
 
 
 def _re_star(chars):
-    key = ('star', ''.join(sorted(chars)))
+    key = ('star', ''.join(sorted(set(chars))))
     if key not in _RE:
         _RE[key] = z3.Star(_char_class(chars))
     return _RE[key]
@@ -168,7 +168,7 @@ def _re_star(chars):
 
 def _re_escaped(chars, upper_only=False):
     """( allowed-char | '%' HEXDIG HEXDIG )*"""
-    key = ('esc', ''.join(sorted(chars)), upper_only)
+    key = ('esc', ''.join(sorted(set(chars))), upper_only)
     if key not in _RE:
         h = _char_class(UPPER if upper_only else HEXDIG)
         _RE[key] = z3.Star(z3.Union(_char_class(chars), z3.Concat(z3.Re(z3.StringVal('%')), h, h)))
@@ -262,6 +262,9 @@ def _hook_slice(ctx, s, start, stop):
 
     if not (lit(start) and lit(stop)):
         return NotImplemented
+    head = ctx.ghost.get('$heads', {}).get(s.t.get_id())
+    if head is not None and start in (None, 0) and stop == 2:
+        return head[1]  # the harness built this piece as head ++ rest with |head| = min(2, |piece|)
     a = start or 0
     if stop is None:
         return mk_str(z3.SubString(s.t, a, z3.Length(s.t)), s.kind)
@@ -269,25 +272,31 @@ def _hook_slice(ctx, s, start, stop):
 
 
 def _rstrip_axioms(s_t, r, f):
-    """r = s.rstrip(chars): r is a prefix of s, what was cut consists of chars only, r does not end in one of them."""
+    """r = s.rstrip(chars): r is empty exactly when s consists of chars only.
+
+    (The subject only asks whether the result is empty; the rest of the exact characterisation -- what was cut consists of chars,
+    r does not end in one -- is not needed and is left out: fewer assumed facts.)
+    """
     name = f.name()
     if ':' not in name:
         return []
     chars = _ast.literal_eval(name.split(':', 1)[1])
-    cls = _char_class(chars)
-    n, k = z3.Length(s_t), z3.Length(r)
-    return [
-        mk_bool(z3.PrefixOf(r, s_t)),
-        mk_bool(z3.InRe(z3.SubString(s_t, k, n - k), z3.Star(cls))),
-        mk_bool(z3.Or(k == 0, z3.Not(z3.InRe(z3.SubString(r, k - 1, 1), cls)))),
-        mk_bool((k == 0) == z3.InRe(s_t, z3.Star(cls))),  # consequence of the three above, stated for the solver
-    ]
+    built = cur().ghost.get('$pieces', {}).get(s_t.get_id())
+    if built is not None and built[3] is not None and frozenset(chars) - {PCT} == built[3]:
+        # a string the harness built as allowed-character pieces joined by at least one '%': lemma harness `constructed_classes`
+        # decides  s in allowed*  == False  and  s in (allowed | '%')*  == True  for exactly this construction
+        return [mk_bool((z3.Length(r) == 0) == z3.BoolVal(PCT in chars))]
+    return [mk_bool((z3.Length(r) == 0) == z3.InRe(s_t, _re_star(chars)))]
 
 
 def _split_model(ctx, s, sep, maxsplit=-1):
     """s.split(sep) into exactly n pieces, n chosen by the harness: s == p0 ++ sep ++ p1 ... and no piece lets sep start inside it."""
     if maxsplit != -1 or not isinstance(sep, (str, bytes)) or len(sep) == 0:
         raise Unreached('split with a symbolic separator or maxsplit')
+    reg = ctx.ghost.get('$pieces', {}).get(s.t.get_id())
+    if reg is not None and reg[1] == sep:
+        ctx.ghost.setdefault('splits', []).append((s, sep, reg[2]))
+        return list(reg[2])
     v = ctx.ghost['v']
     lo, hi = ctx.ghost['split-range']
     n = lo + v.choose(hi - lo + 1, 'split-pieces')
@@ -677,48 +686,136 @@ def _run(v, fn, *args):
 MAX_ESCAPES = 5
 
 
+def in_class(x, chars):
+    """x is exactly one character of `chars`."""
+    if isinstance(x, SStr):
+        return mk_bool(z3.InRe(x.t, _char_class(chars)))
+    return len(x) == 1 and x in chars
+
+
+SHAPES = ['empty', 'one-character', 'first-not-hex', 'second-not-hex']  # the four ways a text after '%' is NOT two hex digits + rest
+
+
+def _piece(v, i, shape, allowed):
+    """A text between two '%' (no '%' inside, allowed characters only) of the given shape, built from explicit first characters.
+
+    Returns (piece, head) with head == piece[:2].  Shapes: 'escape' = HEXDIG HEXDIG allowed*; the four SHAPES; 'any' = allowed*.
+    """
+    if shape == 'any':
+        p = v.str('p%d' % i)
+        v.assume(in_star(p, allowed))
+        return p, None
+    if shape == 'empty':
+        return '', ''
+    c0 = v.str('p%d_c0' % i)
+    if shape == 'one-character':
+        v.assume(in_class(c0, allowed))
+        return c0, c0
+    c1, rest = v.str('p%d_c1' % i), v.str('p%d_rest' % i)
+    first = {'escape': HEXDIG, 'first-not-hex': allowed - HEXDIG, 'second-not-hex': HEXDIG}[shape]
+    second = {'escape': HEXDIG, 'first-not-hex': allowed, 'second-not-hex': allowed - HEXDIG}[shape]
+    v.assume(And(in_class(c0, first), in_class(c1, second), in_star(rest, allowed)))
+    head = c0 + c1
+    return head + rest, head
+
+
+def _register_pieces(v, whole, pieces, heads, allowed=None):
+    """The harness built `whole` as pieces joined by '%', no piece containing '%': that IS whole.split('%') (split is unique)."""
+    if v.concrete:
+        return
+    g = v.ctx.ghost
+    if isinstance(whole, SStr):
+        g.setdefault('$pieces', {})[whole.t.get_id()] = (whole, PCT, list(pieces), allowed)
+    for p, h in zip(pieces, heads):
+        if isinstance(p, SStr) and h is not None:
+            g.setdefault('$heads', {})[p.t.get_id()] = (p, h)
+
+
+def _built_from_pieces(v, allowed):
+    """p0 % p1 % ... % pk (1 <= k <= MAX_ESCAPES), every piece of allowed characters; the pieces before `malformed` are escapes
+    (two hex digits + rest), piece `malformed` has one of the four SHAPES, the pieces after it are arbitrary (0: all are escapes)."""
+    k = 1 + v.choose(MAX_ESCAPES, 'percents')
+    malformed = v.choose(k + 1, 'first-malformed-escape')
+    shape = SHAPES[v.choose(4, 'malformed-shape')] if malformed else None
+    pieces, heads = [], []
+    for i in range(k + 1):
+        sh = 'any' if (i == 0 or (malformed and i > malformed)) else (shape if i == malformed else 'escape')
+        p, h = _piece(v, i, sh, allowed)
+        pieces.append(p)
+        heads.append(h)
+    uri = pieces[0]
+    for p in pieces[1:]:
+        uri = uri + PCT + p
+    _register_pieces(v, uri, pieces, heads, allowed)
+    if isinstance(uri, SStr):
+        v.assume(mk_bool(z3.Not(SURR(uri.t))))  # ASCII only
+    return uri, malformed
+
+
+def _constructed_classes(v):
+    """Lemma: the strings built by _built_from_pieces are what the encoder harness takes them for, by the statement's regular languages."""
+    touch(v, M + ':_create_str_encoder')
+    allowed = allowed_set(bool(v.choose(2, 'is_value')))
+    uri, malformed = _built_from_pieces(v, allowed)
+    v.check('has-a-character-outside-the-allowed-set', Not(in_star(uri, allowed)))
+    v.check('consists-of-allowed-characters-and-percent-only', in_star(uri, allowed | {PCT}))
+    v.check('fully-escaped-iff-no-malformed-escape', Iff(fully_escaped(uri, allowed), not malformed))
+    v.cover('classified')
+
+
+for _iv in (0, 1):
+    harness(PROP, M + ':_create_str_encoder', name='constructed_classes[is_value=%d]' % _iv, setup=_common_setup, fix={'is_value': _iv})(_constructed_classes)
+
+INPUT_CLASSES = ['only-allowed-characters', 'some-character-neither-allowed-nor-percent', 'allowed-characters-and-percents']
+
+
 def _encoder(v):
-    """_create_str_encoder(is_value, check_is_escaped) run from source, then its inner `encoder` on an arbitrary string."""
+    """_create_str_encoder(is_value, check_is_escaped) run from source, then its inner `encoder` on every string of three classes."""
     is_value = bool(v.choose(2, 'is_value'))
     check = bool(v.choose(2, 'check_is_escaped'))
     allowed = allowed_set(is_value)
     if not v.concrete:
         v.interp.max_unroll = 300
-        v.ctx.ghost['v'] = v
-        v.ctx.ghost['split-range'] = (2, MAX_ESCAPES + 1)
     fac = v.call(is_value, check)
     v.check('factory-never-raises', fac.exc is None)
     if fac.exc is not None:
         return
-    uri = scalar_str(v, 'uri')
+    cls = v.choose(3, 'input-class')
+    malformed = None
+    if cls == 0:
+        uri = scalar_str(v, 'uri')
+        v.assume(in_star(uri, allowed))
+    elif cls == 1:
+        uri = scalar_str(v, 'uri')
+        v.assume(Not(in_star(uri, allowed | {PCT})))
+    else:
+        uri, malformed = _built_from_pieces(v, allowed)
     out = _run(v, fac.value, uri)
     v.check('never-raises', out.exc is None)
     if out.exc is not None:
         return
     r = out.value
-    if v.concrete:
-        if uri.count(PCT) > MAX_ESCAPES and check:
-            v.assume(False)
-        v.check('allowed-only-string-is-returned-unchanged', not in_star(uri, allowed) or r == uri)
-        if check:
-            v.check('fully-escaped-string-is-returned-unchanged', not fully_escaped(uri, allowed) or r == uri)
-        v.check('otherwise-every-utf8-byte-goes-through-the-character-table', r == ref_encode(uri, is_value, check))
-        return
-    mapped = v.ctx.ghost.get('mapped', [])
-    if in_star(uri, allowed):
+    mapped = [] if v.concrete else v.ctx.ghost.get('mapped', [])
+    # (that class 2 is what its name says, by the independent regular expressions of the statement: harness constructed_classes)
+    if cls == 1:
+        v.check('class-is-not-fully-escaped', Not(fully_escaped(uri, allowed)))
+    # --- specification -------------------------------------------------------------------------------------------------------------
+    if cls == 0:
         v.check('allowed-only-string-is-returned-unchanged', r == uri)
-        v.check('fast-path-does-not-encode', len(mapped) == 0)
-        v.cover('fast-path')
+        v.check('unchanged-string-is-not-encoded', len(mapped) == 0)
+        v.cover('only-allowed')
         return
-    if check and fully_escaped(uri, allowed):
+    if check and cls == 2 and not malformed:
         v.check('fully-escaped-string-is-returned-unchanged', r == uri)
-        v.check('fully-escaped-string-is-not-encoded-again', len(mapped) == 0)
+        v.check('unchanged-string-is-not-encoded', len(mapped) == 0)
         v.cover('already-escaped')
+        return
+    if v.concrete:
+        v.check('otherwise-every-utf8-byte-goes-through-the-character-table', r == ref_encode(uri, is_value, check))
         return
     want = SStr(pct_join(spec_table(is_value))(_s(utf8_encoded(v.ctx, uri))), 'str')
     v.check('otherwise-every-utf8-byte-goes-through-the-character-table', r == want)
-    ok = len(mapped) == 1
-    v.check('the-table-used-is-the-rfc3986-table', ok and mapped[0][0] == spec_table(is_value))
+    v.check('the-table-used-is-the-rfc3986-table', len(mapped) == 1 and mapped[0][0] == spec_table(is_value))
     v.cover('encoded')
 
 
@@ -726,6 +823,23 @@ for _iv in (0, 1):
     for _ck in (0, 1):
         harness(PROP, M + ':_create_str_encoder', name='encoder[is_value=%d,check_is_escaped=%d]' % (_iv, _ck), setup=_encoder_setup,
                 inline=[M + ':_create_char_encoder'], fix={'is_value': _iv, 'check_is_escaped': _ck})(_encoder)
+
+
+@harness(PROP, M + ':_create_str_encoder', name='escape_shapes_are_exhaustive', setup=_common_setup)
+def escape_shapes_are_exhaustive(v):
+    """A text of allowed characters is an escape body (HEXDIG HEXDIG rest) or has exactly one of the four malformed SHAPES."""
+    touch(v, M + ':_create_str_encoder')
+    if v.concrete:
+        return
+    is_value = bool(v.choose(2, 'is_value'))
+    allowed = allowed_set(is_value)
+    x = v.str('x')
+    v.assume(in_star(x, allowed))
+    a, h, nh = _char_class(allowed), _char_class(HEXDIG), _char_class(allowed - HEXDIG)
+    star = _re_star(allowed)
+    shapes = [z3.Re(z3.StringVal('')), a, z3.Concat(nh, a, star), z3.Concat(h, nh, star), z3.Concat(h, h, star)]
+    v.check('every-allowed-text-has-one-of-the-five-shapes', mk_bool(z3.InRe(x.t, z3.Union(*shapes))))
+    v.cover('checked')
 
 
 # ---------------------------------------------------------------------------
